@@ -131,4 +131,17 @@ SPECS = [
          inputs=[("ready", "bool")], subst={"self.generator_ready": "ready"}),
     dict(name="rollout_get_sets_ready", qual="RolloutBuffer.get", start=r"^self\.generator_ready = ", end=None, kind="expr", ret="bool", inputs=[]),
     dict(name="dictrollout_get_sets_ready", qual="DictRolloutBuffer.get", start=r"^self\.generator_ready = ", end=None, kind="expr", ret="bool", inputs=[]),
+    # __init__: the dtype every storage array is allocated with (codes: 1 = the observation space's dtype, 2 = _maybe_cast_dtype(action dtype):
+    # float64 actions are stored as float32 by design, 3 = np.float32)
+    *[dict(name=nm, qual=q, start=st, end=None, kind="callarg", call=r"np\.zeros", arg="dtype", inputs=[],
+           names={"observation_space.dtype": 1, "observation_space[key].dtype": 1, "self._maybe_cast_dtype(action_space.dtype)": 2, "np.float32": 3})
+      for nm, q, st in (("rb_alloc_obs_dtype", "ReplayBuffer.__init__", r"^self\.observations = "),
+                        ("rb_alloc_next_dtype", "ReplayBuffer.__init__", r"^self\.next_observations = "),
+                        ("rb_alloc_act_dtype", "ReplayBuffer.__init__", r"^self\.actions = "),
+                        ("rb_alloc_rew_dtype", "ReplayBuffer.__init__", r"^self\.rewards = "),
+                        ("rb_alloc_done_dtype", "ReplayBuffer.__init__", r"^self\.dones = "),
+                        ("rb_alloc_to_dtype", "ReplayBuffer.__init__", r"^self\.timeouts = "),
+                        ("dictrb_alloc_obs_dtype", "DictReplayBuffer.__init__", r"^self\.observations = "),
+                        ("dictrb_alloc_next_dtype", "DictReplayBuffer.__init__", r"^self\.next_observations = "),
+                        ("dictrb_alloc_act_dtype", "DictReplayBuffer.__init__", r"^self\.actions = "))],
 ]
